@@ -40,6 +40,8 @@ class Scenario:
         for m in r.sample(['Alpha', 'Beta', 'Gamma', 'Delta'], r.randint(1, 3)):
             si, so = r.choice(SIGS), r.choice(SIGS)
             kind = r.choice(['value', 'value', 'echo', 'raise', 'raise-named', 'deferred', 'deferred-fail'])
+            if kind == 'echo' and 'v' in si:
+                kind = 'value'        # a decoded variant has lost its wrapper type: echoing it is C19's subject
             if kind == 'echo':
                 so = si
             self.methods[m] = {'in': si, 'out': so, 'kind': kind}
